@@ -2,6 +2,7 @@
    observers (to_dict, write, check_types, inputs, outputs) are functions that RETURN something else, so
    they cannot change it by construction; what is proved here is that their results depend only on what
    they are documented to read.  The frame condition of the CPython code is tied behaviourally. *)
+From NIR Require Import Model.Alias Proofs.AliasProofs.
 From NIR Require Import Model.Serial Proofs.SerialProofs.
 
 (* the type check reads nothing but the two types of each child (not fields, metadata or cached types) *)
@@ -34,9 +35,26 @@ Proof. intros ch p H. unfold inputs in H. apply filter_In in H. apply H. Qed.
 Theorem c17_outputs_sublist : forall ch p, In p (outputs ch) -> In p ch.
 Proof. intros ch p H. unfold outputs in H. apply filter_In in H. apply H. Qed.
 
+(* "Graphs returned by separate nir.read calls are independent objects": on the object-identity model (Model/Alias.v)
+   the second result is the first relocated to fresh identities (`second_read`, tied to the code by the C13Reads
+   correspondence cases); no in-place change of an object of one is visible in the other.  The hypothesis (identities
+   are non-negative, as the allocator issues them) is necessary: `reads_counterexample`. *)
+Theorem c17_separate_reads_independent : forall a, (forall i, In i (ids a) -> 0 <= i) ->
+  (forall p new, In p (ids a) -> update p new (second_read a) = second_read a) /\
+  (forall p new, In p (ids (second_read a)) -> update p new a = a).
+Proof. exact reads_independent. Qed.
+
+(* to_dict only allocates: everything it returns is new, so it cannot have written to an object of the graph through
+   the dictionary it hands out *)
+Theorem c17_to_dict_allocates_only : forall g n d n',
+  below g n -> Alias.to_dict g n = (d, n') -> forall i, In i (ids g) -> ~ In i (ids d).
+Proof. exact to_dict_disjoint. Qed.
+
 Print Assumptions c17_check_reads_types_only.
 Print Assumptions c17_to_dict_ignores_cache.
 Print Assumptions c17_check_ignores_cache.
 Print Assumptions c17_write_reads_dict_only.
 Print Assumptions c17_inputs_sublist.
 Print Assumptions c17_outputs_sublist.
+Print Assumptions c17_separate_reads_independent.
+Print Assumptions c17_to_dict_allocates_only.
